@@ -6,6 +6,13 @@ base = json.load(open(os.path.join(root, "manifest_base.json")))
 checks = []
 landed = open(os.path.join(root, "harness/props/props.go")).read()
 findings = []
+applied = {}
+ap = os.path.join(root, "proposed_fixes/APPLIED.txt")
+if os.path.exists(ap):
+    for l in open(ap):
+        if l.strip():
+            k, v = l.split()
+            applied[k] = v
 for p in sorted(glob.glob(os.path.join(root, "harness/props/*/meta.json"))):
     m = json.load(open(p))
     pid = m["property_id"]
@@ -13,7 +20,11 @@ for p in sorted(glob.glob(os.path.join(root, "harness/props/*/meta.json"))):
         continue
     fp = os.path.join(os.path.dirname(p), "findings.json")
     if os.path.exists(fp):
-        findings += json.load(open(fp))
+        for e in json.load(open(fp)):
+            # a fixed entry names the proposed diff it was repaired by; the commit id comes from APPLIED.txt
+            if e.get("status") == "fixed" and e.get("commit", "PENDING") in ("PENDING", "") and e.get("fix") in applied:
+                e["commit"] = applied[e["fix"]]
+            findings.append(e)
     c = {
         "property_id": pid,
         "quick_cmd": m.get("quick_cmd", "./check %s quick" % pid),
